@@ -91,6 +91,8 @@ def handleKeys (s : KSt) (line : String) : KSt :=
     let k := unhex k
     { s with pubC := s.pubC.insert k (unhex pc), pubU := s.pubU.insert k (unhex pu) }
   | ["S", k, m, sg] => { s with sigs := s.sigs.insert (unhex k, unhex m) (unhex sg) }
+  | ["KF", _ks, _id] => s.count "cmp:create-outage"   -- a refused creation changes nothing (the reads that follow are compared)
+  | ["KF", ks, id, _] => s.diff "create-outage" "err" s!"acknowledged ks={ks} id={id}"
   | ["K", ks, id, key] =>
     let i := ks.toNat!
     let idb := unhex id
